@@ -372,13 +372,13 @@ def sweep (live : List Label) (w : World) : World :=
   { w with recs := fun l => if live.contains l then w.recs l else none, temps := 0 }
 
 /-- the labels that exist for a collection: those of the build files. `dawn gc` loads from `index.json` when it
-decodes (`preferIndex`), but `GC` then reloads from the build files (D19 repair), so the index never decides. -/
+decodes (`preferIndex`), but `GC` then reloads from the build files (D22 repair), so the index never decides. -/
 def gcLive (t : Tree) (_preferIndex : Bool) (_w : World) : List Label := t.labels
 
 /-- `dawn gc` = load then `GC` -/
 def gc (t : Tree) (preferIndex : Bool) (w : World) : World := sweep (gcLive t preferIndex w) (load t w)
 
-/-- before the D19 repair: a collection after an index-only load kept the labels of the *index* (the last full load) -/
+/-- before the D22 repair: a collection after an index-only load kept the labels of the *index* (the last full load) -/
 def gcOld (t : Tree) (preferIndex : Bool) (w : World) : World :=
   match preferIndex, w.index with
   | true, .good ls => sweep ls w
